@@ -469,7 +469,7 @@ def do_check(pid, tier, seed, jobs, keep):
     main, witness = select(reg, pid, tier, kfs, seed)
     only = os.environ.get("VERIF_ONLY")  # debugging aid: restrict to harnesses whose name contains this
     if only:
-        main = [e for e in main if only in e["name"]]
+        main = [e for e in main if any(o in e["name"] for o in only.split(","))]
         witness = []
     if not main:
         log("no harness registered for", pid)
